@@ -388,7 +388,11 @@ def crc_term(byte_terms):
 @model('crc32fast::hash', 'hash')
 def m_crc(c):
     s = as_seq(c.st, c.args[0])
-    return Int(crc_term([b.v for b in s.items(c.st)]), False)
+    t = crc_term([b.v for b in s.items(c.st)])
+    if c.st.env.get('crc_nonzero'):
+        # per-scenario assumption (stated by the check that sets it): the checksums met are not the reserved value 0
+        c.st.assume(t != 0)
+    return Int(t, False)
 
 
 # ------------------------------------------------------------------ codec: image table
